@@ -124,12 +124,6 @@ func (r *Run) report(noEvidence bool) int {
 		orAll(r.prop), r.tier, len(r.funcs), claimedN, discharged, knownN, violations, solverTime, wall)
 	// vacuity guard
 	infra := false
-	for _, fi := range r.funcs {
-		if fi.n == 0 {
-			fmt.Printf("govc: INFRASTRUCTURE ERROR: function %s under contract generated no obligation for %s\n", fi.name, r.prop)
-			infra = true
-		}
-	}
 	if len(r.items) == 0 && len(r.engineErrors) == 0 {
 		fmt.Println("govc: INFRASTRUCTURE ERROR: no obligations generated")
 		infra = true
@@ -233,6 +227,10 @@ func (r *Run) writeReplay(dir string, it *OblResult) (string, bool) {
 	sub := *it.Obl
 	if it.Res.FailedConjunct != "" {
 		sub.Cond = T{it.Res.FailedConjunct, SBool}
+		sub.Subs = nil
+		if it.Res.FailedPath != "" {
+			sub.Path = T{it.Res.FailedPath, SBool}
+		}
 	}
 	q := it.Enc.Query(&sub)
 	qpath := filepath.Join(dir, base+".smt2")
